@@ -241,14 +241,6 @@ func NewWorld(t *testing.T, cfg Config) *World {
 		Faults: simrt.Counter{}, Probes: simrt.Counter{}, Evals: simrt.Counter{}, States: map[string]bool{},
 		commits: map[int64]*commitRec{}, incReported: map[*Incarnation]bool{}, StopOnViolation: true, cleanProp: map[int64][]byte{}}
 	simhook.GoHook = w.Reg.Go
-	// with a yield hook installed the lock sites of the consensus package poll instead of blocking (simhook.LockF):
-	// a node whose state lock is never released again is then seen as wedged by the next call into it, instead of
-	// hanging the whole bubble; goroutines of dead incarnations stop at their next lock attempt
-	simhook.YieldHook = func(site string) {
-		if inc, _ := w.Reg.Current().(*Incarnation); inc != nil && inc.life != nil && inc.life.Dead() {
-			select {}
-		}
-	}
 	gcmn.VerifExitHook = func(s string) { panic(exitPanic{s}) }
 	gcmn.VerifPointHook = w.filePoint
 	if cfg.MsgQueueSize > 0 {
@@ -303,7 +295,6 @@ func (w *World) Close() {
 		}
 	}
 	simhook.GoHook = nil
-	simhook.YieldHook = nil
 	gcmn.VerifExitHook = nil
 	gcmn.VerifPointHook = nil
 	os.RemoveAll(w.baseDir)
